@@ -4,7 +4,7 @@ from vmon.checks.c06 import TARGET_NAMES
 
 LEVEL = "exploration"
 MANIFEST = {
-    "text": "Declared-vs-computed schema audit (M-plan) of every collection a user can hold: for every value L of seeded random programs (all column dtype mixes incl. string/categorical/datetime/bool, layouts with empty partitions) and targeted queries, and every optimizer stage S, the container type, column labels and order, series/index names and dtype kinds declared by optimize_until(L, S) are compared with every computed partition, and the declared schema at every stage is compared with the logical collection's.",
+    "text": "Declared-vs-computed schema audit (M-plan) of every collection a user can hold: for every value L of seeded random programs (all column dtype mixes incl. string/categorical/datetime/bool, layouts with empty partitions) and targeted queries, and every optimizer stage S, the container type, column labels and order, series/index names and dtype kinds declared by optimize_until(L, S) are compared with every computed partition, and the declared schema at every stage is compared with the logical collection's. ~120 keyword-surface targets (every join lowering x indicator / suffixes / index keys, split_out reductions on unnamed Series, reset_index of MultiIndex, sort_values(ignore_index), resample, merge_asof, concat of Series, ...) are audited at every stage.",
     "note": "dtype comparison is by kind; int/bool -> float/object is accepted only when the partition really contains missing values; empty partitions are not judged for dtype. Only user-holdable collections are audited.",
     "technique": "runtime monitoring: M-plan declared-vs-computed schema audit of every partition at every plan stage",
     "design_ref": "DESIGN.md section 4, C07",
